@@ -190,7 +190,8 @@ class VersionedDict(object):
             return vs[max(vs)]
 
         try:
-            return self._data[key][version]
+            # (.get so that looking up an unknown key does not create an entry for it)
+            return self._data.get(key, {})[version]
         except KeyError:
             raise KeyError("No value associated with version %s of %s" %
                            (version, key))
